@@ -65,6 +65,8 @@ const mod = "example.com/c16"
 var fragments = []string{
 	"plain words", `with "double quotes"`, `it's`, `back\slash \n not newline`, "a `backquote` here", "100%v done %% %d", "mail@example.com and @name in the middle", "name' apostrophe", "世界 ünïcode é",
 	"tab\there", "/* not a block */", "// double slash", "x = y + z", "{braces} [brackets] (parens)", "trailing dot.", "UPPER lower 123", "a;b,c:d", "<html>&amp;</html>", "$VAR ${x}", "#hash ~tilde ^caret |pipe",
+	// lines that START with a non-ASCII character whose code point ends in the byte of '+' or '@' (U+0440, U+042B, U+592B)
+	"размер буфера в байтах", "Ыстория", "夫妻 doc line", "＋ fullwidth plus", "＠ fullwidth at",
 }
 
 type docSpec struct {
